@@ -170,6 +170,24 @@ func globalNeverWritten(p *Prog, g *ssa.Global) bool {
 									if st, isSt := r.(*ssa.Store); isSt && st.Addr == ssa.Value(x) && fn.Name() == "init" {
 										continue // the package initialiser writes the literal's elements
 									}
+									if fa, isFa := r.(*ssa.FieldAddr); isFa {
+										// &g[i].f: stored by the initialiser, loaded elsewhere
+										if fa.Referrers() != nil {
+											for _, r2 := range *fa.Referrers() {
+												if st, isSt := r2.(*ssa.Store); isSt && st.Addr == ssa.Value(fa) && fn.Name() == "init" {
+													continue
+												}
+												if ld, ok := r2.(*ssa.UnOp); ok && ld.Op == token.MUL {
+													continue
+												}
+												if _, dbg := r2.(*ssa.DebugRef); dbg {
+													continue
+												}
+												return false
+											}
+										}
+										continue
+									}
 									if ld, ok := r.(*ssa.UnOp); !ok || ld.Op != token.MUL {
 										if _, dbg := r.(*ssa.DebugRef); !dbg {
 											return false
@@ -207,4 +225,128 @@ func tableOfTerm(t *T) *constTable {
 		return nil
 	}
 	return constTableOf(theProg, g)
+}
+
+// structTableOf: a package-level array (or slice literal) of structs whose fields are all constants,
+// never written: one map field -> value per row.
+func structTableOf(p *Prog, g *ssa.Global) []map[string]*big.Int {
+	if p == nil || g.Pkg == nil {
+		return nil
+	}
+	pk := p.Pkgs[g.Pkg.Pkg.Path()]
+	if pk == nil {
+		return nil
+	}
+	cl, _ := findVarLit(pk, g.Name())
+	if cl == nil {
+		return nil
+	}
+	var st *types.Struct
+	switch u := g.Type().Underlying().(*types.Pointer).Elem().Underlying().(type) {
+	case *types.Array:
+		st, _ = u.Elem().Underlying().(*types.Struct)
+	case *types.Slice:
+		st, _ = u.Elem().Underlying().(*types.Struct)
+	}
+	if st == nil {
+		return nil
+	}
+	var rows []map[string]*big.Int
+	for _, e := range cl.Elts {
+		if kv, ok := e.(*ast.KeyValueExpr); ok {
+			e = kv.Value
+		}
+		el, ok := e.(*ast.CompositeLit)
+		if !ok {
+			return nil
+		}
+		row := map[string]*big.Int{}
+		for i, fe := range el.Elts {
+			name := ""
+			ve := fe
+			if kv, ok := fe.(*ast.KeyValueExpr); ok {
+				id, ok := kv.Key.(*ast.Ident)
+				if !ok {
+					return nil
+				}
+				name, ve = id.Name, kv.Value
+			} else if i < st.NumFields() {
+				name = st.Field(i).Name()
+			}
+			cv, ok := constOf(pk, ve)
+			if !ok {
+				return nil
+			}
+			v, ok := constValInt(cv)
+			if !ok {
+				return nil
+			}
+			row[name] = v
+		}
+		rows = append(rows, row)
+	}
+	if !globalNeverWritten(p, g) {
+		return nil
+	}
+	return rows
+}
+
+// rowFieldOfTable: v is a field of the element a range loop over a constant struct table is at
+// (t := table[i]; t.field): the table and the field name.
+func rowFieldOfTable(p *Prog, v ssa.Value) ([]map[string]*big.Int, string) {
+	ld, ok := v.(*ssa.UnOp)
+	if !ok || ld.Op != token.MUL {
+		return nil, ""
+	}
+	fa, ok := ld.X.(*ssa.FieldAddr)
+	if !ok {
+		return nil, ""
+	}
+	field := fieldName(fa.X.Type(), fa.Field)
+	// the struct: a local that receives table[i], or the element address itself
+	var elem ssa.Value
+	switch x := fa.X.(type) {
+	case *ssa.Alloc:
+		if x.Referrers() == nil {
+			return nil, ""
+		}
+		n := 0
+		for _, r := range *x.Referrers() {
+			if st, ok := r.(*ssa.Store); ok && st.Addr == ssa.Value(x) {
+				n++
+				elem = st.Val
+			}
+		}
+		if n != 1 {
+			return nil, ""
+		}
+	case *ssa.IndexAddr:
+		elem = x
+	default:
+		return nil, ""
+	}
+	var tab ssa.Value
+	switch e := elem.(type) {
+	case *ssa.Index:
+		tab = e.X
+	case *ssa.IndexAddr:
+		tab = e.X
+	case *ssa.UnOp:
+		if ia, ok := e.X.(*ssa.IndexAddr); ok && e.Op == token.MUL {
+			tab = ia.X
+		}
+	}
+	if tab == nil {
+		return nil, ""
+	}
+	if l2, ok := tab.(*ssa.UnOp); ok && l2.Op == token.MUL {
+		tab = l2.X
+	}
+	g, ok := tab.(*ssa.Global)
+	if !ok {
+		return nil, ""
+	}
+	// globalNeverWritten accepts the array copy "*g" only through okUse; a whole-array load is a read
+	rows := structTableOf(p, g)
+	return rows, field
 }
